@@ -139,6 +139,10 @@ func main() {
 			for _, r := range p.rules {
 				r(c)
 			}
+			c.extra = nil
+			if *tier == "thorough" && !*noEvidence {
+				c.extra = thoroughExtras(c, vdir)
+			}
 		}()
 		wall := time.Since(tp).Seconds() + loadS
 		code := report(c, p, vdir, *tier, seed, wall, *noEvidence, *list, explainRule, explainKey)
@@ -348,6 +352,7 @@ func writeEvidence(c *Ctx, p *propertyDef, vdir, tier string, seed int, wall flo
 			"per_rule":            perRule,
 			"analysed":            stats,
 			"notes":               c.Notes,
+			"thorough":            c.extra,
 			"checker_cmd":         fmt.Sprintf("bin/arcacheck -repo %s -property %s -tier %s", c.RepoDir, p.id, tier),
 			"trusted_base": []string{"go/types and go/ssa (x/tools v0.29.0)", "the repo-specific call graph (interface calls resolved to repo implementors; cross-checked against VTA in the thorough tier)",
 				"tabled facts about sync, context and the dependency APIs at which rules stop", "the exception tables in the checker (one reviewed line each)"},
